@@ -199,6 +199,14 @@ def check_exchange(run, sim, c, req, rsp, witness, stats):
     if piv != c["start"] and not witness.get("later"):
         run.violation("first-partial-iv-is-not-start-sequence-number", witness,
                       "start_seq_num %d, PIV on the wire %d" % (c["start"], piv))
+    if len(D) > 1152:
+        # The protected request is larger than the 1152 bytes a libcoap endpoint accepts in one
+        # datagram by default (a 1 KiB payload under a context with a long kid context): the
+        # peer refuses it by size before OSCORE is looked at.  What the bytes are has been
+        # judged above; "unprotecting it at the peer" presupposes a message the peer takes in.
+        stats["protected_request_above_default_datagram_size"] = \
+            stats.get("protected_request_above_default_datagram_size", 0) + 1
+        return D
     # the peer's handler sees the original
     seen = [e for e in sim.log if e["e"] == "req" and e.get("n") == 1 and
             e["tok"] == req["token"].hex()]
